@@ -5,11 +5,14 @@ in  (one JSON object per line), by "kind":
   {"case": n, "kind": "sanitize", "s": "<text>"}                        -> sanitize s, sanitizeColumnName true/false s
   {"case": n, "kind": "ident", "dialect": d, "name": s, "quoted": b, "marked": b}
                                                                         -> normalizeIdent (strategyOf d) marked ⟨s, b⟩
+  {"case": n, "kind": "round", "engine": e, "h": <int>}                 -> F.round(col) over the double h/2 on engine e as the model
+       evaluates it (generated decision + assumed primitive table), PySpark's value, the two primitives, the operand types
   {"case": n, "kind": "name", "engine": e, "name": s, "quoted": b}      -> on engine e's default session: the identifier
        as `_to_sql` writes it, the dialect of the statement, what `_collect` returns for a reported name `s`, the
        user-visible result name, and whether it is CaseEq / NameEquiv to the DuckDB session's
 -/
 import SqlframeModel.Codec.C12
+import SqlframeModel.Impl.C12Round
 open Lean Sqlframe Sqlframe.Gen Sqlframe.C12
 
 structure Case where
@@ -21,6 +24,7 @@ structure Case where
   name : Option String := none
   quoted : Option Bool := none
   marked : Option Bool := none
+  h : Option Int := none
   deriving FromJson
 
 def str (cs : List Char) : String := String.ofList cs
@@ -40,6 +44,7 @@ def tableJson : Json :=
     ("strToDialect", Json.arr (strToDialect.map (fun p => Json.arr #[toJson p.1, toJson (roleName p.2)])).toArray),
     ("normalizeOrder", toJson (normalizeOrder.map sideName)), ("renderIn", toJson (sideName renderIn)), ("quoteIn", toJson (sideName quoteIn)),
     ("flagsUsed", toJson flagsUsed),
+    ("roundPgCast", Json.arr #[toJson roundPgCastNoScale, toJson roundPgCastWithScale]),
     ("strategies", Json.mkObj (["snowflake", "bigquery", "duckdb", "spark", "databricks", "redshift", "postgres"].map
         (fun d => (d, toJson (strategyName (strategyOf d))))))]
 
@@ -79,6 +84,15 @@ def handle (line : String) : String :=
           ("alias", toJson (str (sanitizeColumnName r.sanitize n))),
           ("resultName", toJson (str res)), ("duckName", toJson (str duck)),
           ("nameEquiv", toJson (decide (NameEquiv r.sanitize res duck)))]))
+    | "round" =>
+      let e := c.engine.getD ""
+      let h := c.h.getD 0
+      Json.compress (Json.mkObj (base ++ [
+        ("model", toJson (sqlframeRound e h)), ("spec", toJson (sparkRound h)),
+        ("away", toJson (halfAway h)), ("even", toJson (halfEven h)),
+        ("operandNoScale", toJson (match roundOperand e roundPgCastNoScale with | .double => "double" | .numeric => "numeric")),
+        ("operandWithScale", toJson (match roundOperand e roundPgCastWithScale with | .double => "double" | .numeric => "numeric")),
+        ("scaleValid", toJson (sqlframeRoundScaleValid e))]))
     | k => Json.compress (Json.mkObj (base ++ [("err", toJson s!"unknown kind {k}")]))
 
 partial def loop (h : IO.FS.Stream) (out : IO.FS.Stream) : IO Unit := do
